@@ -9,6 +9,7 @@ import (
 	"encoding/binary"
 	"encoding/json"
 	"fmt"
+	kafkaExt "github.com/kubeshark/base/pkg/extensions/kafka"
 	"os"
 	"sort"
 	"strconv"
@@ -225,6 +226,60 @@ func init() {
 			return n
 		},
 	}
+	// Kafka: exchange i is ApiVersions v0 with correlation id i; the response side polls for the
+	// request (maxTry 3 under the scheduler, one poll per step)
+	kafkaCorr := func(p map[string]interface{}) int {
+		var find func(v interface{}) (float64, bool)
+		find = func(v interface{}) (float64, bool) {
+			if m, ok := v.(map[string]interface{}); ok {
+				if c, ok := m["correlationID"].(float64); ok {
+					return c, true
+				}
+				for _, y := range m {
+					if c, ok := find(y); ok {
+						return c, true
+					}
+				}
+			}
+			return 0, false
+		}
+		c, ok := find(p)
+		if !ok {
+			return -1
+		}
+		return int(c)
+	}
+	protos["kafka"] = &protoConv{
+		dissector: kafkaExt.NewDissector(),
+		client: func(n int) []byte {
+			var b bytes.Buffer
+			for i := 1; i <= n; i++ {
+				_ = binary.Write(&b, binary.BigEndian, uint32(10))
+				_ = binary.Write(&b, binary.BigEndian, uint16(18))
+				_ = binary.Write(&b, binary.BigEndian, uint16(0))
+				_ = binary.Write(&b, binary.BigEndian, uint32(i))
+				_ = binary.Write(&b, binary.BigEndian, uint16(0xffff))
+			}
+			return b.Bytes()
+		},
+		server: func(n int) []byte {
+			var b bytes.Buffer
+			for i := 1; i <= n; i++ {
+				_ = binary.Write(&b, binary.BigEndian, uint32(10))
+				_ = binary.Write(&b, binary.BigEndian, uint32(i))
+				_ = binary.Write(&b, binary.BigEndian, uint16(0))
+				_ = binary.Write(&b, binary.BigEndian, uint32(0))
+			}
+			return b.Bytes()
+		},
+		reqOrd:  kafkaCorr,
+		respOrd: kafkaCorr,
+		identOrd: func(id string) int {
+			f := strings.Split(id, "_")
+			n, _ := strconv.Atoi(f[len(f)-1])
+			return n
+		},
+	}
 	// HTTP/1.0 with keep-alive: the same pairing through the protoMinor == 0 paths
 	h10 := *protos["http"]
 	h10.client = func(n int) []byte {
@@ -269,6 +324,7 @@ func execSchedMatch(pc *protoConv, n int, choose sched.Chooser) schedRun {
 	stats := &api.AppStats{}
 	out := make(chan *api.OutputChannelItem, 4*n+16)
 	m := pc.dissector.NewResponseRequestMatcher()
+	m.SetMaxTry(3)
 	conn := mock.NewConn(pc.dissector, m, stats, out, "pcap0", "10.0.0.1", "40000", "10.0.0.2", "6379")
 	cb, sb := pc.client(n), pc.server(n)
 	fns := []func(){
@@ -313,7 +369,9 @@ func observeSched(pc *protoConv, sr schedRun, withTrace bool) sx.Sx {
 	var rs []re
 	sr.conn.Matcher.GetMap().Range(func(k, v interface{}) bool {
 		side := "resp"
-		if gm, ok := v.(*api.GenericMessage); ok && gm.IsRequest {
+		if _, ok := v.(*kafkaExt.Request); ok {
+			side = "req"
+		} else if gm, ok := v.(*api.GenericMessage); ok && gm.IsRequest {
 			side = "req"
 		}
 		rs = append(rs, re{pc.identOrd(k.(string)), side})
